@@ -16,6 +16,16 @@
 //! ExtractorCompactorBackup::load); the result has to be the state before the save or the state
 //! after it. A completed save has to reload as the state the saving process had in memory.
 //!
+//! Histories: short random ones per routine, plus the SIZE-CLASS family (`gen_size_classes`): a save
+//! routine may treat objects differently by size (a threshold for "large" values, a buffer that is
+//! bypassed, an alignment that adds a section), so for every size constant c found in the save
+//! routines' source (read from /repo at run time: literal products / shifts and the named constants
+//! made of them) and of the environment (page, BufWriter, 64 KiB, 1 MiB, tokio's file buffer) there
+//! are objects of c-1, c, c+1 bytes (disk cache: 16 MiB ± 1 for the mmap-read threshold) or entry
+//! counts that put the file just below / above c (index bucket, residency db, LRU table). Writes
+//! of these histories are cut at boundaries only (`coarse_positions`); a disk-cache value from
+//! 128 KiB on reaches the model as `@len:seed:mlen` (a tail of one master stream per run).
+//!
 //! Protocol (one response line per request line):
 //!   begin <routine> [k=v …]                         -> ok
 //!   step <worker script> | <model parameters>       -> <op>;<op>;…   (or `-` for no operation)
@@ -797,7 +807,7 @@ fn init_tracer() -> &'static Tracer {
             }
         };
         match (shim, strace) {
-            (Ok((so, td)), Ok(())) => Tracer { shim: Some(so), _shim_dir: Some(td), strace: true, desc: "ld_preload (cross-checked against strace on every save)".into() },
+            (Ok((so, td)), Ok(())) => Tracer { shim: Some(so), _shim_dir: Some(td), strace: true, desc: "ld_preload (cross-checked against strace on every save; disk-cache values from 4 MiB on by the recorder alone)".into() },
             (Ok((so, td)), Err(e)) => Tracer { shim: Some(so), _shim_dir: Some(td), strace: false, desc: format!("ld_preload (strace unavailable: {e})") },
             (Err(e), Ok(())) => Tracer { shim: None, _shim_dir: None, strace: true, desc: format!("strace (ld_preload unavailable: {e})") },
             (Err(e1), Err(e2)) => {
@@ -2192,7 +2202,7 @@ fn gen_size_classes(s: &mut Session, r: &mut Rng, routine: &str, thorough: bool)
     let (consts, scanned) = size_constants(routine, thorough);
     s.tally_n(&format!("{routine}:size-constants-from-source"), scanned as u64);
     if scanned == 0 {
-        s.tally(&format!("{routine}:size-constants-source-scan-found-nothing"));
+        s.tally(&format!("{routine}:no-size-constant-of-the-source-in-range"));
     }
     // quick tier: the largest constants first, a bounded number of them
     let keep = if thorough { 12 } else if routine == "dc" { 6 } else { 4 };
@@ -2278,9 +2288,6 @@ fn gen_size_classes(s: &mut Session, r: &mut Rng, routine: &str, thorough: bool)
         }
         for (ctx, scripts) in hists {
             let t0 = std::time::Instant::now();
-            struct T(std::time::Instant, String);
-            impl Drop for T { fn drop(&mut self) { if std::env::var_os("C06_TIMING").is_some() { eprintln!("timing {} {:?}", self.1, self.0.elapsed()); } } }
-            let _t = T(t0, format!("{routine} c={c}"));
             s.tally(&format!("{routine}:size-class-history c={c}"));
             let mut h = Hist { ctx, dir: tempfile::tempdir().expect("tempdir"), replay: vec![], last: None, cut: cut.clone(), thorough, dead: false };
             h.begin(s);
@@ -2295,6 +2302,9 @@ fn gen_size_classes(s: &mut Session, r: &mut Rng, routine: &str, thorough: bool)
                     let side = if n < c { "below" } else if n == c { "at" } else { "above" };
                     s.tally(&format!("{routine}:size-class-save-{side}-constant"));
                 }
+            }
+            if std::env::var_os("C06_TIMING").is_some() {
+                eprintln!("timing {routine} c={c} {:?}", t0.elapsed());
             }
         }
     }
